@@ -70,8 +70,15 @@ class C13(Prop):
         add([v, hh, hi, v], 3, 0.5, ['all'])
         add([v, v, hh], 2, 0.5, ['all'])
         add([v, hi, v, v], 2, 0.5, rng.choice([['close', 2], ['raise', 2]]))
+        # results the parent cannot read back (they pickle in the worker, not in the parent): the worker lives on, and its
+        # replays count towards the recycle rate like any other
+        ur = 'unreadable'
+        add([ur, ur, v, v, v], 2, 0.5, ['all'])
+        add([v, ur, ur, ur, v, v], 2, 0.5, ['all'])
+        add([ur, v, ur, v, ur, v, v], 3, 0.5, ['all'])
+        add([ur, ur, ur, ur], 1, 0.5, ['all'])
         n = 40 if tier == 'quick' else 280
-        weights = [v] * 5 + ['bare', 'playerRaises', 'exit', 'exit', 'hang', 'hangTermIgnored', 'hangTermHandled', 'late']
+        weights = [v] * 5 + ['bare', 'playerRaises', 'exit', 'exit', 'hang', 'hangTermIgnored', 'hangTermHandled', 'late', ur]
         for _ in range(n):
             m = rng.randint(2, 8)
             kinds = [rng.choice(weights) for _ in range(m)]
